@@ -250,12 +250,13 @@ def jobs(tier, seed):
                   reach=["b.nested.feature", "b.nested.rule", "b.nested.outline"], cost=200, validate=100))
     # (c) reachable trees: statuses after real runs (stop/abort remainders, never-started features,
     #     de-selected elements, hook errors) satisfy the relation bottom-up; R is validated on them
-    from props.c01 import _shapes
+    from props.c01 import _shapes, flag_shards
     for name, shapes in _shapes(tier).items():
-        js.append(Job("c.run.%s" % name, "vlib.stage1:h_stage1",
-                      {"shapes": shapes, "opts": {"stop": "sym", "dry_run": "sym"}, "checks": ["rollup"]},
-                      reach=["C03.rollup(feature)", "C03.rollup(scenario)", "C03.R-covers-reachable(steps)"],
-                      min_paths=20, cost=5000, validate=100 if tier == "quick" else 1000))
+        for fname, fopts in flag_shards(tier):
+            js.append(Job("c.run.%s%s" % (name, fname), "vlib.stage1:h_stage1",
+                          {"shapes": shapes, "opts": fopts, "checks": ["rollup"]},
+                          reach=["C03.rollup(feature)", "C03.rollup(scenario)", "C03.R-covers-reachable(steps)"],
+                          min_paths=5, cost=5000, validate=100 if tier == "quick" else 300))
     from vlib.shapes import F, S, O, R
     js.append(Job("c.select", "vlib.stage1:h_stage1",
                   {"shapes": [F([S(1), O(1, [(1, []), (1, [])]), R([S(1)])])],
@@ -266,6 +267,14 @@ def jobs(tier, seed):
                    "opts": {"hooks": True, "fault": True, "stop": "sym", "out_dom": {"*": [0, 1]}},
                    "checks": ["rollup"]},
                   reach=["C03.rollup(feature)"], min_paths=20, cost=8000, validate=100))
+    js.append(Job("c.midrun-status-reads", "vlib.stage1:h_stage1",
+                  {"shapes": [F([S(1), S(1), R([S(1), S(1)])])], "opts": {"read_status_in_hooks": True, "stop": "sym", "out_dom": {"*": [0, 2]}, "undef": False},
+                   "checks": ["rollup"]},
+                  reach=["C03.rollup(feature)", "C03.rollup(rule)"], min_paths=20, cost=7000, validate=100))
+    js.append(Job("c.midrun-status-reads+hookfault", "vlib.stage1:h_stage1",
+                  {"shapes": [F([S(1), S(1)])], "opts": {"read_status_in_hooks": True, "fault": True, "out_dom": {"*": [0, 1]}, "undef": False},
+                   "checks": ["rollup"]},
+                  reach=["C03.rollup(feature)"], min_paths=20, cost=7000, validate=100))
     js.append(Job("d.autoretry", "vlib.stage1:h_stage1",
                   {"shapes": [F([S(2, tags=["t1"])], tags=["t0"])] if tier == "quick" else [F([S(2, tags=["t1"]), S(1)], tags=["t0"])],
                    "opts": {"hooks": True, "fault": True, "autoretry": 2, "out_dom": {"*": [0, 1] if tier == "quick" else [0, 2]}},
